@@ -123,9 +123,11 @@ def unknown_names(sh, fa_fp, algos, rng):
         if name in known or name in ("shake_128", "shake_256"):
             continue
         for attempt in (1, 2, 3):  # a name that was refused once stays refused
-            st, got = guard(fa_fp, rng.choice(["", '"int"', "é"]), name)
+            # (the text may itself be spelled like an algorithm name: it is still the text)
+            text = rng.choice(["", '"int"', "é"] + sorted(known) + [name, "md5", "sha256"])
+            st, got = guard(fa_fp, text, name)
             if st == "ok" or not isinstance(got, ValueError):
-                sh.violation("unknown-algorithm-accepted", "fingerprint(.., %r) -> %s instead of ValueError (call %d with that name)" % (name, got if st == "ok" else exc_name(got), attempt), {"algorithm": name})
+                sh.violation("unknown-algorithm-accepted", "fingerprint(.., %r) -> %s instead of ValueError (call %d with that name)" % (name, got if st == "ok" else exc_name(got), attempt), {"algorithm": name, "text_arg": text})
                 return
         sh.count("unknown_names_rejected")
         sh.case(h64("unknown", name), True)
